@@ -19,7 +19,9 @@ META = {
     "trusted_base": ["rustc MIR + resolution", "callee write sets are computed over workspace bodies only"],
 }
 
-OUTPUTS = ("std::io::stdio::_print", "std::fs::write", "rmcp::model::CallToolResult::success")
+# everything that makes a report (or an empty stand-in for one) visible: printing, writing a file, creating/truncating one
+OUTPUTS = ("std::io::stdio::_print", "std::fs::write", "std::fs::File::create", "std::fs::OpenOptions::open", "std::fs::File::create_new",
+           "rmcp::model::CallToolResult::success")
 
 
 def _exceeds_test(cond):
